@@ -2,6 +2,7 @@
 import hashlib
 import json
 import os
+import re
 import shutil
 import signal
 import subprocess
@@ -138,6 +139,31 @@ def run_workers(prop, tier, seed, specs, scratch, timeout):
     return results
 
 
+_REPO_FRAME = re.compile(r"#\d+ 0x[0-9a-f]+ in (\S+) (\S*(?:dd_[a-z_]+\.c|dtw_cc[a-z_]*\.c|ed_cc\.c|"
+                         r"util_numpy_cc\.c|\.pyx)):(\d+)")
+
+
+def parse_sanitizer(blob):
+    """yield dicts(kind, where, text) for ASan report blocks and UBSan runtime errors"""
+    out = []
+    if not blob:
+        return out
+    for m in re.finditer(r"ERROR: AddressSanitizer: (\S+)", blob):
+        text = blob[m.start(): m.start() + 4000]
+        fm = _REPO_FRAME.search(text)
+        where = "%s %s:%s" % (fm.group(1), os.path.basename(fm.group(2)), fm.group(3)) if fm else "?"
+        if fm is None and "dd_" not in text and "dtaidistance" not in text:
+            continue
+        out.append(dict(kind=m.group(1), where=where, text=text))
+    for m in re.finditer(r"(\S+\.(?:c|h|pyx)):(\d+):\d+: runtime error: ([^\n]*)", blob):
+        f = os.path.basename(m.group(1))
+        if not (f.startswith("dd_") or f.startswith("dtw_cc") or f.startswith("ed_cc")):
+            continue
+        out.append(dict(kind="ubsan", where="%s:%s %s" % (f, m.group(2), m.group(3)[:60]),
+                        text=blob[m.start(): m.start() + 1500]))
+    return out
+
+
 def save_replay(prop, w):
     d = VERIF / "replays" / prop
     d.mkdir(parents=True, exist_ok=True)
@@ -184,6 +210,17 @@ def finish(plan, tier, seed, t0, results, extra_cov=None, extra_viol=None, incon
         for k, v in extra_cov.pop("counters", {}).items():
             counters[k] = counters.get(k, 0) + v
     inconc = list(inconclusive or [])
+    # sanitizer reports of the asan build: de-duplicated by (kind, innermost repository frame)
+    san_seen = {}
+    for r in results:
+        for blob in r.get("san_logs", []) + ([r.get("stderr_tail", "")] if r["variant"].startswith("asan") else []):
+            for rep in parse_sanitizer(blob):
+                key = (rep["kind"], rep["where"])
+                san_seen.setdefault(key, rep)
+                counters["sanitizer_reports"] = counters.get("sanitizer_reports", 0) + 1
+    for (kind, where), rep in sorted(san_seen.items()):
+        viols.append(dict(prop=prop, kind="sanitizer:" + kind, fn=where, report=rep["text"][:1800],
+                          variant="asan"))
     for r in bad_workers:
         sig = r["rc"] if isinstance(r["rc"], int) and r["rc"] < 0 else None
         if plan.crash_is_violation and sig in (-signal.SIGSEGV, -signal.SIGABRT, -signal.SIGBUS, -signal.SIGFPE):
@@ -223,6 +260,9 @@ def finish(plan, tier, seed, t0, results, extra_cov=None, extra_viol=None, incon
         print("   %-44s %d" % (k, counters[k]))
     for kid, (k, n) in sorted(hits.items()):
         print("KNOWN-FINDING: property=%s %s [%s, %d witnesses this run]" % (k["property"], k["what"], kid, n))
+    lastf = VERIF / "replays" / (prop + "-last.json")
+    if not new and lastf.exists():
+        lastf.unlink()
     if new:
         (VERIF / "replays").mkdir(exist_ok=True)
         (VERIF / "replays" / (prop + "-last.json")).write_text(json.dumps(new, indent=0, default=str))
